@@ -17,7 +17,10 @@ META = dict(
         quick="file name: ONE unbounded-length symbolic string (any directory part, any base name) per operation in "
               "{load_one, load_many, dump_one, dump_many}; explicit format in {None, each of the 25 module names, "
               "an unknown name}; input-writer selection for {gaussian, orca, unknown}; declared attribute names of "
-              "all modules (ground facts); glob->regex translation validated against fnmatch on concrete names; "
+              "all modules (ground facts); glob->regex translation validated against fnmatch on concrete names; one "
+              "solver-generated base name (<= 24 printable characters) per region around every declared pattern - a match that "
+              "no earlier module claims, and each near miss with one literal character replaced - run through the real "
+              "selection whatever matching routine it uses; "
               "guaranteed attributes: every object loaded by 23 layout-file harnesses (independent writers of C03; all explored paths) "
               "has each attribute its module declares as guaranteed",
         thorough="same (the name space is already unbounded)"),
@@ -319,6 +322,69 @@ def h_guaranteed(ctx, module="harness.c03", fn="h_gro", params=None, fmt="gromac
             ctx.oblige("guaranteed-attribute-is-set", getattr(d, name, None) is not None, cls=f"{fmt}.{op}:{name}")
 
 
+def _near_miss_queries(api):
+    """(tag, assertions) - one string query per region of interest around every declared pattern: the pattern itself outside
+    all patterns of earlier modules, and the pattern with one of its literal characters replaced by any other character."""
+    from symx.symstr import glob_regex, smt_lit
+    mods = list(api.FORMAT_MODULES.items())
+    out = []
+    for mi, (name, m) in enumerate(mods):
+        earlier = [p for _n, mm in mods[:mi] for p in mm.PATTERNS]
+        for p in m.PATTERNS:
+            base = ['(= d "")', "(>= (str.len b) 1)", "(<= (str.len b) 24)"]
+            out.append((f"{name}:{p}:match", base + [glob_atom(p, "b")] + [f"(not {glob_atom(q, 'b')})" for q in earlier]))
+            for i, ch in enumerate(p):
+                if ch in "*?[]":
+                    continue
+                # same shape, position i holds any character but the one the pattern spells out
+                parts = []
+                for j, cj in enumerate(p):
+                    if j == i:
+                        parts.append(f"(re.diff re.allchar (str.to_re {smt_lit(cj)}))")
+                    elif cj == "*":
+                        parts.append("re.all")
+                    else:
+                        parts.append(f"(str.to_re {smt_lit(cj)})")
+                rx = parts[0] if len(parts) == 1 else "(re.++ " + " ".join(parts) + ")"
+                printable = '(str.in_re b (re.* (re.range " " "~")))'
+                out.append((f"{name}:{p}:miss{i}", base + [f"(str.in_re b {rx})", printable]))
+    return out
+
+
+def h_select_witnesses(ctx, attr="load_one"):
+    """Independent of how the implementation matches names (the symbolic job select-by-name needs it to go through fnmatch):
+    the string solver produces one name per region around every declared pattern - a match that no earlier module claims, and
+    every near miss in which one literal character of the pattern is another one -, the real selection runs on that name
+    and is compared with the specification."""
+    import iodata.api as api
+    from iodata.utils import FileFormatError
+    if ctx.mode == "conc":
+        return h_select_name(ctx, attr=attr)
+    from symx.symstr import solve
+    nq = nw = 0
+    for tag, asserts in _near_miss_queries(api):
+        st, wit = solve(asserts, True, timeout_s=5)
+        nq += 1
+        if st != "sat" or wit is None:
+            if st == "unknown":
+                ctx.record("witness-for-region", f"{attr}", None, {}, detail=tag)
+            continue
+        nw += 1
+        try:
+            mod = api._select_format_module(wit, attr, None)
+        except FileFormatError:
+            mod = None
+        anyq = [n for n, m in api.FORMAT_MODULES.items() if _qualifies_concrete(m, attr, wit)]
+        if mod is not None:
+            ok = _qualifies_concrete(mod, attr, wit)
+            ctx.record("chosen-format-matches-basename-and-supports-operation", f"{attr}", ok, {"fname": wit},
+                       detail=f"{tag}: {wit!r} -> {mod.__name__.rsplit('.', 1)[-1]}")
+        else:
+            ctx.record("error-only-when-no-format-qualifies", f"{attr}", not anyq, {"fname": wit},
+                       detail=f"{tag}: {wit!r} refused although {anyq} qualify")
+    ctx.note(f"{nq} string queries, {nw} witnesses")
+
+
 def h_glob_translation(ctx):
     """Validate the glob->regex model against fnmatch on concrete names (model validation, not the claim)."""
     import iodata.api as api
@@ -345,6 +411,8 @@ def jobs(tier):
                        max_validate=60))
         out.append(job("C17", f"no-touch-on-error[{attr}]", M, "h_no_touch_on_error", dict(attr=attr), budget_s=900,
                        validate=False))
+    for attr in OPS:
+        out.append(job("C17", f"select-witnesses[{attr}]", M, "h_select_witnesses", dict(attr=attr), budget_s=600, validate=False))
     out.append(job("C17", "select-by-name[twin]", M, "h_select_name", dict(attr="load_one", twin=True),
                    expect="cex", budget_s=600, validate=False, stop_after_cex=1))
     C3 = "harness.c03"
